@@ -107,3 +107,6 @@ def run_check(tier, seed):
     ev.cov['input_distribution'] = {' / '.join(k): v for k, v in sorted(hist.items(), key=lambda kv: -kv[1])[:40]}
     ev.cov['samples'] = [S.case_json(c, obs.get(c['id'])) for c in cases[:2] + cases[-2:]]
     return finish(ev, PROP, findings, broken)
+
+def replay(path):
+    return S.replay(PROP, path)
